@@ -66,6 +66,21 @@ inline bool inGlobalDomain(const Circuit &c, double sideMargin) {
   return false;
 }
 
+// Moves the whole circuit (rows, cells) by (tx, ty): every property of the placement entry points is translation invariant
+// as long as coordinates stay well inside the int range.
+inline void translateCircuit(Circuit &c, int tx, int ty) {
+  for (int i = 0; i < c.nbCells(); ++i) {
+    c.cellX_[i] += tx;
+    c.cellY_[i] += ty;
+  }
+  for (Row &r : c.rows_) {
+    r.minX += tx;
+    r.maxX += tx;
+    r.minY += ty;
+    r.maxY += ty;
+  }
+}
+
 struct GenInfo {
   int rowHeight = 1;
   long long freeWidth = 0;
